@@ -387,7 +387,9 @@ class error_997_visitor(error_visitor.error_visitor):
             if err_cde in valid_AK4_codes:
                 seg_data = pyx12.segment.Segment(seg_str, '~', '*', ':')
                 seg_data.set('AK403', err_cde)
-                if bad_value:
+                if bad_value and not any(term in bad_value for term in
+                                         (self.seg_term, self.ele_term, self.subele_term)):
+                    # AK404 is optional; a value holding one of our delimiters cannot be copied
                     seg_data.set('AK404', bad_value)
                 self._write(seg_data)
 
